@@ -18,7 +18,8 @@ from drivers.common import run_async
 from drivers.docs import lines_text, project, EMPTY_ABS
 
 PYVAL = {"w": "hello", "two": "hello world", "int": 42, "t": True, "l3": ["a", "b", "c"], "l0": [], "empty": "", "numstr": "42",
-         "lmap": {"k": 1, "j": "x"}, "null": None, "flow": "A→B", "float": 3.14, "nl": "line1\nline2"}
+         "lmap": {"k": 1, "j": "x"}, "null": None, "flow": "A→B", "float": 3.14, "nl": "line1\nline2", "sjl": "[1, 2]", "sje": "[]", "sjo": "{}",
+         "f": False, "one": 1, "fone": 1.0, "zero": 0}
 
 
 def pyreq(reqs, merge):
@@ -175,11 +176,14 @@ def run(ctx):
     try:
         base = dict(MaxItems=2, MaxDepth=1, MaxDev=0, PoolA={"w", "l3"}, PoolB={"int", "two"}, PoolC=set(), HeaderMode="plain", HeaderMaxBody=0,
                     Feat={"block", "dupkey"}, Knobs=set(), MaxReqs=1, ReqKeys={"A", "B", "FRESH"},
-                    ReqVals={"w", "two", "int", "t", "l3", "l0", "empty", "lmap", "nl"}, MetaKeys={"TYPE", "NEWF"})
+                    ReqVals={"w", "two", "int", "t", "l3", "l0", "empty", "lmap", "nl", "sjl", "sje", "sjo"}, MetaKeys={"TYPE", "NEWF"})
         runs = [("one_req", base),
                 ("two_reqs", dict(base, MaxItems=2, PoolA={"w"}, PoolB={"l3"}, Feat={"dupkey"}, MaxReqs=2, ReqVals={"two", "l3"}, MetaKeys={"TYPE"})),
                 ("meta", dict(base, MaxItems=1, PoolA={"w"}, HeaderMode="all", HeaderMaxBody=1, Feat=set(), ReqKeys={"A"}, ReqVals={"w", "l3", "int"},
                               MetaKeys={"TYPE", "VERSION", "NEST", "NEWF"}))]
+        # values that compare equal in Python but are different kinds (true / 1 / 1.0, false / 0), on keys and META fields holding one of them
+        runs.append(("kinds", dict(base, MaxItems=1, MaxDepth=0, PoolA={"t", "one"}, Feat=set(), MaxReqs=1, ReqKeys={"A"},
+                                   ReqVals={"t", "one", "fone", "f", "zero"}, MetaKeys={"TYPE"})))
         # keys whose values the emitter treats specially (always quoted when they are strings)
         runs.append(("pattern_keys", dict(base, MaxItems=1, MaxDepth=0, PoolA={"w"}, Feat=set(), MaxReqs=1, ReqKeys={"PATTERN", "REGEX"},
                                           ReqVals={"w", "int", "t", "l0", "l3"}, MetaKeys={"TYPE"})))
